@@ -8,6 +8,8 @@
 import NdnVerif.C01.Model
 import NdnVerif.C01.FwLemmas
 import NdnVerif.C01.FwLemmas2
+import NdnVerif.C01.FwMulti
+import NdnVerif.C01.FwLemmas4
 namespace Ndn.Fw.C01
 open Ndn Ndn.Fw Ndn.Fw.Spec
 
@@ -114,5 +116,141 @@ example :
     let s : St := { faces := [⟨1, true, .p2p⟩, ⟨2, true, .p2p⟩], fib := [([], [(2, 1)])],
                     cs := [⟨[⟨8, [97]⟩], 5, 0⟩] }
     (step s (.interest 1 { name := [⟨8, [97]⟩], nonce := some 3, tok := [4] } [] 0)).2 = [.data 1 [⟨8, [97]⟩] 5 [4]] := by decide
+
+/-! ### the forwarder as several forwarding threads (C01/FwMulti.lean)
+
+  PIT and CS are per thread; the face layer assigns packets to threads by name hashes `H` (any function). -/
+
+/-- Interests for the same name always meet in the same thread, whatever face they come from and
+    whatever their flags, nonce or forwarding hint (aggregation and the duplicate-nonce test are per
+    PIT entry of that one thread). -/
+theorem mt_same_name_same_thread (n : Nat) (H : Name → Nat) (i1 i2 : Interest) (h : i1.name = i2.name) :
+    interestThread n H i1.name = interestThread n H i2.name := by rw [h]
+
+theorem isLocalhost_of_prefix {a b : Name} (hp : Name.isPrefixOf a b = true) (hl : isLocalhost a = true) :
+    isLocalhost b = true := by
+  have h1 := eq_take_of_isPrefixOf hp
+  cases a with
+  | nil => simp [isLocalhost] at hl
+  | cons c t =>
+    cases b with
+    | nil => simp at h1
+    | cons c' t' =>
+      simp only [List.length_cons, List.take_succ_cons, List.cons.injEq] at h1
+      simp only [isLocalhost] at hl ⊢
+      rw [← h1.1]; exact hl
+
+/-- A token-less Data is queued to the thread of EVERY Interest name it can satisfy: the thread that
+    holds an Interest whose name is a prefix of (or equal to) the Data name — the empty name included —
+    is among the Data's threads (after the fixes of F-01a / F-01b, for local and non-local faces). -/
+theorem mt_dispatch_covers (n : Nat) (hn : 0 < n) (H : Name → Nat) (iname dname : Name)
+    (hp : Name.isPrefixOf iname dname = true) :
+    interestThread n H iname ∈ dataThreads n H dname none := by
+  unfold dataThreads interestThread prefixThreads
+  simp only [List.mem_filter, List.mem_range, List.contains_eq_mem, decide_eq_true_eq]
+  by_cases hli : isLocalhost iname = true
+  · have hld := isLocalhost_of_prefix hp hli
+    simp [hli, hld, hn]
+  · have hli' : isLocalhost iname = false := by simpa using hli
+    simp only [hli', Bool.false_eq_true, if_false]
+    refine ⟨Nat.mod_lt _ hn, ?_⟩
+    by_cases hld : isLocalhost dname = true
+    · -- a non-/localhost prefix of a /localhost name is the empty name
+      have : iname = [] := by
+        cases iname with
+        | nil => rfl
+        | cons c t =>
+          exfalso
+          have h1 := eq_take_of_isPrefixOf hp
+          cases dname with
+          | nil => simp at h1
+          | cons c' t' =>
+            simp only [List.length_cons, List.take_succ_cons, List.cons.injEq] at h1
+            simp only [isLocalhost] at hld hli'
+            rw [← h1.1] at hld
+            rw [hld] at hli'
+            cases hli'
+      simp [hld, this]
+    · have hld' : isLocalhost dname = false := by simpa using hld
+      simp only [hld', Bool.false_eq_true, if_false, List.mem_map]
+      refine ⟨iname, ?_, rfl⟩
+      rw [eq_take_of_isPrefixOf hp]
+      apply take_mem_prefixesDesc
+      unfold Name.isPrefixOf at hp
+      simp at hp
+      exact hp.1
+
+/-- a Data echoing a 6-byte PIT token goes to the thread that minted it (if that thread exists) -/
+theorem mt_token_thread (n : Nat) (H : Name → Nat) (name : Name) (t : Nat) (ht : t < n) :
+    dataThreads n H name (some t) = [t] := by simp [dataThreads, ht]
+
+/-- Delivery across threads: in thread `t` (reachable state, entries placed by the dispatch rule) entry
+    `e` holds an in-record of face `r.face`; a token-less Data that satisfies it by name arrives on
+    another face `f`, on any face scope: the copy for `r.face`, with its token, is among the sends of
+    the forwarder, scope rules permitting. -/
+theorem mt_data_delivered (m : MSt) (H : Name → Nat) (t : Nat) (s : St) (hs : m.ts[t]? = some s) (hwf : WF s)
+    (e : Entry) (he : e ∈ s.pit) (hplace : interestThread m.n H e.name = t)
+    (f : FaceId) (d : Data) (fc : Face) (hf : faceOf s.faces f = some fc)
+    (hacc : (!fc.isLocal && isLocalhost d.name) = false)
+    (htok : ∀ v, d.tok ≠ .six v) (hm : nameMatch d.name e.name e.cbp = true)
+    (r : InRec) (hr : r ∈ e.inRecs) (hg : r.face ≠ f) (gf : Face) (hgf : faceOf s.faces r.face = some gf)
+    (hsc : (!gf.isLocal && isLocalhost d.name) = false) :
+    Send.data r.face d.name d.content r.tok ∈ (mData m H f d none).2 := by
+  have hn : 0 < m.n := by
+    unfold MSt.n
+    have := List.getElem?_eq_some_iff.mp hs
+    obtain ⟨hlt, _⟩ := this
+    omega
+  have hpre : Name.isPrefixOf e.name d.name = true := by
+    unfold nameMatch at hm
+    simp only [Bool.or_eq_true, beq_iff_eq, Bool.and_eq_true] at hm
+    rcases hm with h | h
+    · rw [h]
+      have := isPrefixOf_take e.name e.name.length
+      simpa using this
+    · exact h.2
+  have hcov := mt_dispatch_covers m.n hn H e.name d.name hpre
+  rw [hplace] at hcov
+  have hsat : satisfies d e = true := by
+    unfold satisfies
+    cases hd : d.tok with
+    | six v => exact absurd hd (htok v)
+    | none => exact hm
+    | other b => exact hm
+  have := data_reaches_every_pending_face s f d fc hf hacc e he hsat hwf r hr hg gf hgf hsc
+  simp only [step] at this
+  simp only [mData, List.mem_flatMap]
+  exact ⟨t, hcov, by rw [hs]; exact this⟩
+
+/-- Every state of the multi-thread forwarder reachable from empty PITs by any history (configuration and
+    timer operations on all threads, Interests and Data dispatched by the face-layer rule with a fixed
+    name hash `H`): each thread satisfies `WF`, and every PIT entry lives in the thread the dispatch
+    rule assigns to its name. -/
+theorem mt_reachable (H : Name → Nat) (m0 : MSt) (h0 : ∀ s ∈ m0.ts, s.pit = []) (ops : List MOp) :
+    (∀ (t : Nat) (s : St), (mrun H m0 ops).ts[t]? = some s → WF s) ∧ Placed H (mrun H m0 ops) :=
+  mrun_inv H m0 h0 ops
+
+/-- C01 exactness across threads, for every reachable state of the forwarder: whichever thread holds the
+    pending Interest, a token-less Data that satisfies it by name (arriving on any other face, local or
+    non-local) is delivered to the pending face with the token that face supplied, scope permitting. -/
+theorem mt_data_delivered_reachable (H : Name → Nat) (m0 : MSt) (h0 : ∀ s ∈ m0.ts, s.pit = []) (ops : List MOp)
+    (t : Nat) (s : St) (hs : (mrun H m0 ops).ts[t]? = some s) (e : Entry) (he : e ∈ s.pit)
+    (f : FaceId) (d : Data) (fc : Face) (hf : faceOf s.faces f = some fc)
+    (hacc : (!fc.isLocal && isLocalhost d.name) = false)
+    (htok : ∀ v, d.tok ≠ .six v) (hm : nameMatch d.name e.name e.cbp = true)
+    (r : InRec) (hr : r ∈ e.inRecs) (hg : r.face ≠ f) (gf : Face) (hgf : faceOf s.faces r.face = some gf)
+    (hsc : (!gf.isLocal && isLocalhost d.name) = false) :
+    Send.data r.face d.name d.content r.tok ∈ (mstep H (mrun H m0 ops) (.data f d none)).2 := by
+  obtain ⟨hwf, hpl⟩ := mt_reachable H m0 h0 ops
+  exact mt_data_delivered (mrun H m0 ops) H t s hs (hwf t s hs) e he ((hpl t s hs).all e he) f d fc hf hacc htok hm
+    r hr hg gf hgf hsc
+
+example :
+    let e : Entry := ⟨[], true, false, none, 0, [⟨2, 7, 1000, [9]⟩], [], false, some 1000⟩
+    let s0 : St := { faces := [⟨1, true, .p2p⟩, ⟨2, true, .p2p⟩] }
+    let m : MSt := ⟨[s0, { s0 with pit := [e], nextTok := 1 }, s0]⟩
+    -- hash: the empty name ↦ thread 1, everything else ↦ thread 0
+    let H : Name → Nat := fun n => if n.isEmpty then 1 else 0
+    (mData m H 1 { name := [⟨8, [97]⟩], content := 5 } none).2 = [.data 2 [⟨8, [97]⟩] 5 [9]] := by decide
 
 end Ndn.Fw.C01
